@@ -26,9 +26,18 @@ func Unmarshal(result Result, value any, settings ...ContextApply) error {
 
 func unmarshal(result Result, value any, settings ...ContextApply) error {
 	val := reflect.ValueOf(value)
+
+	if !val.IsValid() {
+		return fmt.Errorf("cannot unmarshal into nil")
+	}
+
 	typ := val.Type()
 
 	for typ.Kind() == reflect.Pointer {
+		if val.IsNil() {
+			return fmt.Errorf("cannot unmarshal into a nil pointer")
+		}
+
 		val = val.Elem()
 		typ = typ.Elem()
 	}
@@ -36,6 +45,10 @@ func unmarshal(result Result, value any, settings ...ContextApply) error {
 	kind := typ.Kind()
 
 	if kind == reflect.Struct {
+		if !val.CanAddr() {
+			return fmt.Errorf("struct unmarshals must be given a pointer to the struct")
+		}
+
 		return unmarshalStruct(result, val.Addr(), settings...)
 	}
 
@@ -122,12 +135,14 @@ func unmarshalSlice(result Result, val reflect.Value, settings ...ContextApply) 
 		sliceElementKind = sliceElement.Kind()
 	}
 
+	if sliceElementKind == reflect.Slice {
+		return fmt.Errorf("slice unmarshals can only operate on 1-dimensional slices")
+	}
+
 	for _, i := range nodeset {
 		var sliceValue reflect.Value
 
-		if sliceElementKind == reflect.Slice {
-			return fmt.Errorf("slice unmarshals can only operate on 1-dimensional slices")
-		} else if sliceElementKind == reflect.Struct {
+		if sliceElementKind == reflect.Struct {
 			ptr := reflect.New(sliceElement)
 			ptr.Elem().Set(reflect.Zero(sliceElement))
 
